@@ -48,9 +48,23 @@ P = {
  "C18": ("proof: for every predicate the generator model emits the unique sorted, maximal, scalar-endpoint range list with exact membership; correspondence: hook on boundary predicates and the 20 real predicates",
          "Coq proof (loop invariant over N.iter) + differential through in-crate hook"),
 }
+RUNTIME = ("C01", "C03", "C04", "C05", "C06", "C07", "C08", "C09", "C10", "C14", "C15")
+RT_TEXT = (" End to end: lexer_correct_model (the model of the whole macro pipeline yields, for every well-formed definition and every input, "
+           "the stream of the reference semantics) and generated_code_correct_model (the same for the generated code as syntax trees, GenCode.v). "
+           "Tie: the macro's real token stream is translated into those trees on every run (harness/gencode.py) and must equal GenCode.gen_program run on the "
+           "implementation's own dumped automata; crates/lexgen_util/src/lib.rs is translated method by method (gen/GenUtil.v) and proved equal to the "
+           "model's operations (GenUtilProofs.v); automata compared with the model's up to isomorphism; proved-sound certificate checkers on the dumped automata.")
+RT_TECH = " + generated-code translator (token stream -> GenCode trees) + run-time library translated and proved equal"
 checks = []
 for pid in sorted(P):
     text, tech = P[pid]
+    if pid in RUNTIME:
+        text, tech = text + RT_TEXT, tech + RT_TECH
+    if pid == "C12":
+        text = text.replace("proof: termination of the work-list algorithms (fuel always suffices)",
+                            "proof: termination of the work-list algorithms, the subset construction included (measure 2^|NFA| - |finished|; at most 2^|NFA| states; the model's fuel is an artefact)")
+    if pid == "C16":
+        text += "; scoping of let: variable/definition interchangeability, visibility theorems, same rule sets => same lexer (ScopingFacts.v)"
     has_props = os.path.exists(os.path.join(V, "coq", "props", pid + ".v"))
     checks.append({
         "property_id": pid,
@@ -62,7 +76,7 @@ for pid in sorted(P):
         "level_claimed": {"category": "proof" if has_props else "translation_validation",
                           "text": text if has_props else "(theorem file not yet in the build: correspondence only) " + text,
                           "design_ref": "DESIGN.md section 7 (%s), sections 3-6" % pid},
-        "level_note": ("theorems are about the hand-written Gallina model (coq/theories); tie to /repo: gen/*.v regenerated by harness/gen_coq.py on every run, "
+        "level_note": ("theorems are about the Gallina model (coq/theories) and about regenerated files; tie to /repo: gen/*.v (tables, constants, lexgen_util methods) regenerated by harness/gen_coq.py + gen_util.py on every run, the generated code translated by harness/gencode.py, "
                        "hooks under cfg(lexgen_verif) dump the real macro's artifacts, generated lexers run on sampled inputs; Print Assumptions: closed under the global context; "
                        "trusted: Coq kernel + vm_compute, translator, extraction (ExtrOcamlBasic) + OCaml driver, harness, rustc/std semantics, unicode-width/xid oracles"),
         "technique": tech,
